@@ -66,6 +66,29 @@ def fee_basis_points(initial: int, delta: int, target: int, increment: bool, fee
     return fee + tax * avg // target, "tax", capped
 
 
+def in_frontier_band(initial: int, delta: int, target: int, increment: bool, band_wei: int) -> bool:
+    if target == 0:
+        return False
+    nxt = initial + delta if increment else (0 if delta > initial else initial - delta)
+    return abs(abs(nxt - target) - abs(initial - target)) <= band_wei
+
+
+def fee_candidates(initial: int, delta: int, target: int, increment: bool, band_wei: int):
+    """Fees the rule can yield when the improvement test |next - target| < |initial - target| is only decided to within
+    `band_wei` (an implementation that keeps the sub-wei fraction of weight*supply/totalWeights moves that frontier by
+    less than one wei on each side). Away from the frontier this is the single rule value."""
+    bps, branch, capped = fee_basis_points(initial, delta, target, increment)
+    if target == 0:
+        return [bps]
+    nxt = initial + delta if increment else (0 if delta > initial else initial - delta)
+    d0, d1 = abs(initial - target), abs(nxt - target)
+    if abs(d1 - d0) > band_wei:
+        return [bps]
+    rebate = TAX_BPS * d0 // target
+    avg = min((d0 + d1) // 2, target)
+    return sorted({0 if rebate > MINT_BURN_FEE_BPS else MINT_BURN_FEE_BPS - rebate, MINT_BURN_FEE_BPS + TAX_BPS * avg // target})
+
+
 def adjust_for_decimals(amount: int, dec_div: int, dec_mul: int) -> int:
     """Vault.adjustForDecimals: amount * 10**decimals(mul) / 10**decimals(div)."""
     return amount * 10**dec_mul // 10**dec_div
@@ -75,13 +98,13 @@ def _clamp_fee(bps: int) -> int:
     return max(0, min(MAX_FEE_BPS, bps))
 
 
-def mint_glp(st: V1State, token: str, amount_wei: int, fee_shift: int = 0) -> dict:
+def mint_glp(st: V1State, token: str, amount_wei: int, fee_shift: int = 0, fee_override=None) -> dict:
     """GlpManager._addLiquidity -> Vault.buyUSDG. amount_wei in the token's own smallest unit."""
     d = st.decimals[token]
     price = st.price[token]
     usdg_delta = adjust_for_decimals(amount_wei * price // PRICE_PRECISION, d, USDG_DECIMALS)
     bps, branch, capped = fee_basis_points(st.usdg[token], usdg_delta, st.target(token), True)
-    used = _clamp_fee(bps + fee_shift)
+    used = _clamp_fee((bps if fee_override is None else fee_override) + fee_shift)
     after_fee = amount_wei * (BASIS_POINTS_DIVISOR - used) // BASIS_POINTS_DIVISOR
     usdg = adjust_for_decimals(after_fee * price // PRICE_PRECISION, d, USDG_DECIMALS)
     aum_usdg = st.aum_in_usdg()
@@ -98,14 +121,14 @@ def mint_glp_exact(st: V1State, token: str, amount_wei: int, fee_bps: int) -> Fr
     return usdg if aum_usdg == 0 else usdg * st.glp_supply / aum_usdg
 
 
-def redeem_glp(st: V1State, token: str, glp_wei: int, fee_shift: int = 0) -> dict:
+def redeem_glp(st: V1State, token: str, glp_wei: int, fee_shift: int = 0, fee_override=None) -> dict:
     """GlpManager._removeLiquidity -> Vault.sellUSDG. Returns the token amount out in the token's smallest unit."""
     d = st.decimals[token]
     price = st.price[token]
     usdg = glp_wei * st.aum_in_usdg() // st.glp_supply
     redemption = adjust_for_decimals(usdg * PRICE_PRECISION // price, USDG_DECIMALS, d)
     bps, branch, capped = fee_basis_points(st.usdg[token], usdg, st.target(token), False)
-    used = _clamp_fee(bps + fee_shift)
+    used = _clamp_fee((bps if fee_override is None else fee_override) + fee_shift)
     out = redemption * (BASIS_POINTS_DIVISOR - used) // BASIS_POINTS_DIVISOR
     return {"usdg": usdg, "fee_bps": bps, "fee_used": used, "branch": branch, "capped": capped, "redemption": redemption, "out_wei": out,
             "drains": usdg > st.usdg[token]}
@@ -164,22 +187,52 @@ def _impact(cfg: V2Config, a0, b0, a1, b1):
     return f_pos * d0**e - f_neg * d1**e, True
 
 
-def deposit_impact(cfg: V2Config, st: V2State, long_usd, short_usd):
-    """Price impact in USD of adding (long_usd, short_usd) to the pool; negative impact is the worse of the real
-    pool and the virtual inventory. Returns (impact, info)."""
+def _deposit_impacts(cfg: V2Config, st: V2State, long_usd, short_usd):
     a0, b0 = st.long_amount * st.long_price, st.short_amount * st.short_price
-    imp, cross = _impact(cfg, a0, b0, a0 + long_usd, b0 + short_usd)
-    info = {"crossover": cross, "virtual": False, "scale": max(a0 + long_usd, b0 + short_usd)}
-    if imp >= 0:
-        return imp, info
+    real, cross = _impact(cfg, a0, b0, a0 + long_usd, b0 + short_usd)
     va, vb = st.virt_long * st.long_price, st.virt_short * st.short_price
-    vimp, vcross = _impact(cfg, va, vb, va + long_usd, vb + short_usd)
-    info["scale"] = max(info["scale"], va + long_usd, vb + short_usd)
-    if vimp < imp:
-        info["virtual"] = True
-        info["crossover"] = vcross
-        return vimp, info
-    return imp, info
+    virt, vcross = _impact(cfg, va, vb, va + long_usd, vb + short_usd)
+    scale = max(a0 + long_usd, b0 + short_usd, va + long_usd, vb + short_usd)
+    return (real, cross), (virt, vcross), scale
+
+
+def deposit_impact(cfg: V2Config, st: V2State, long_usd, short_usd):
+    """Price impact in USD of adding (long_usd, short_usd) to the pool; a negative impact is the worse of the real
+    pool and the virtual inventory. Returns (impact, info)."""
+    (real, cross), (virt, vcross), scale = _deposit_impacts(cfg, st, long_usd, short_usd)
+    if real >= 0 or virt >= real:
+        return real, {"crossover": cross, "virtual": False, "scale": scale}
+    return virt, {"crossover": vcross, "virtual": True, "scale": scale}
+
+
+def _deposit_eval(cfg: V2Config, st: V2State, L, S, imp, modes=None) -> dict:
+    """ExecuteDepositUtils for a given total impact. `modes[side]` forces how a side's share is treated ("pos"/"neg");
+    by default it follows the sign of the share."""
+    lv, sv = L * st.long_price, S * st.short_price
+    out = {"paid_usd": lv + sv, "gm": Fraction(0), "impact": imp, "capped_positive_usd": Fraction(0), "capped": False,
+           "reverts": False, "long_fee": Fraction(0), "short_fee": Fraction(0)}
+    for side, amt, val, p_in, p_out in (("long", L, lv, st.long_price, st.short_price), ("short", S, sv, st.short_price, st.long_price)):
+        if amt <= 0:
+            continue
+        share = imp * val / (lv + sv)
+        mode = (modes or {}).get(side) or ("pos" if share > 0 else "neg")
+        fee_factor = cfg.dep_fee_pos if mode == "pos" else cfg.dep_fee_neg
+        fee = amt * fee_factor
+        after = amt - fee
+        out[side + "_fee"] = fee
+        if mode == "pos":  # paid in the opposite token out of its impact pool, never more than the pool holds
+            pos_amt = max(share, Fraction(0)) / p_out
+            if pos_amt > st.impact_pool:
+                pos_amt = st.impact_pool
+                out["capped"] = True
+            out["capped_positive_usd"] += pos_amt * p_out
+            out["gm"] += st.supply * (pos_amt * p_out) / st.pool_value
+        else:  # less of the deposit mints
+            after -= max(-share, Fraction(0)) / p_in
+            if after < 0:
+                out["reverts"] = True  # uint underflow on chain
+        out["gm"] += st.supply * (after * p_in) / st.pool_value
+    return out
 
 
 def deposit(cfg: V2Config, st: V2State, long_amount, short_amount) -> dict:
@@ -187,33 +240,43 @@ def deposit(cfg: V2Config, st: V2State, long_amount, short_amount) -> dict:
     opposite token capped by the impact pool; negative impact reduces the amount that mints."""
     L, S = Fraction(long_amount), Fraction(short_amount)
     lv, sv = L * st.long_price, S * st.short_price
-    out = {"paid_usd": lv + sv, "gm": Fraction(0), "impact": Fraction(0), "capped_positive_usd": Fraction(0), "capped": False,
-           "reverts": False, "long_fee": Fraction(0), "short_fee": Fraction(0), "crossover": False, "virtual": False, "scale": Fraction(0)}
     if lv + sv == 0:
+        out = _deposit_eval(cfg, st, Fraction(0), Fraction(0), Fraction(0))
+        out.update(crossover=False, virtual=False, scale=Fraction(0))
         return out
     imp, info = deposit_impact(cfg, st, lv, sv)
-    out.update(impact=imp, crossover=info["crossover"], virtual=info["virtual"], scale=info["scale"])
-    for side, amt, val, p_in, p_out in (("long", L, lv, st.long_price, st.short_price), ("short", S, sv, st.short_price, st.long_price)):
-        if amt <= 0:
-            continue
-        share = imp * val / (lv + sv)
-        fee_factor = cfg.dep_fee_pos if share > 0 else cfg.dep_fee_neg
-        fee = amt * fee_factor
-        after = amt - fee
-        out[side + "_fee"] = fee
-        if share > 0:
-            pos_amt = share / p_out
-            if pos_amt > st.impact_pool:
-                pos_amt = st.impact_pool
-                out["capped"] = True
-            out["capped_positive_usd"] += pos_amt * p_out
-            out["gm"] += st.supply * (pos_amt * p_out) / st.pool_value
-        elif share < 0:
-            after -= (-share) / p_in
-            if after < 0:
-                out["reverts"] = True  # uint underflow on chain
-        out["gm"] += st.supply * (after * p_in) / st.pool_value
+    out = _deposit_eval(cfg, st, L, S, imp)
+    out.update(info)
     return out
+
+
+def deposit_candidates(cfg: V2Config, st: V2State, long_amount, short_amount, noise) -> list:
+    """Every result the rule yields when each *sign test* on the price impact (is the pool's own impact negative, so that
+    the virtual inventory is consulted? is a side's share positive, so that the positive fee factor and the impact-pool
+    payout apply?) is only decided to within `noise` usd. Away from those knife edges this is [deposit(...)]."""
+    L, S = Fraction(long_amount), Fraction(short_amount)
+    lv, sv = L * st.long_price, S * st.short_price
+    if lv + sv == 0:
+        return [deposit(cfg, st, L, S)]
+    (real, cross), (virt, vcross), scale = _deposit_impacts(cfg, st, lv, sv)
+    impacts = []
+    if real >= -noise:  # seen as non-negative: stands as it is
+        impacts.append(real)
+    if real < noise:  # seen as negative: the worse of the two
+        impacts.append(min(real, virt))
+    outs = []
+    for imp in dict.fromkeys(impacts):
+        options = []
+        for side, amt, val in (("long", L, lv), ("short", S, sv)):
+            if amt <= 0:
+                options.append([(side, None)])
+                continue
+            share = imp * val / (lv + sv)
+            options.append([(side, "pos"), (side, "neg")] if abs(share) <= noise else [(side, None)])
+        for lo in options[0]:
+            for so in options[1]:
+                outs.append(_deposit_eval(cfg, st, L, S, imp, dict([lo, so])))
+    return outs
 
 
 def withdraw(cfg: V2Config, st: V2State, gm_amount) -> dict:
